@@ -650,11 +650,11 @@ def m_idx_raw(ex, f, a):
     if 'into_raw' in f: return Agg('RawIdx', 0, [v.fields[0]])
     if 'into_u32' in f or f.startswith('<u32 as From'): return v.fields[0] if isinstance(v, Agg) else v
     return Agg('RawIdx', 0, [v])
-@pattern(r'^std::path::Path::(to_path_buf|new|as_os_str|to_str|to_string_lossy|display|join|file_name|parent|extension|file_stem|exists|is_dir|is_file)$|^<(std::path::)?PathBuf as (Deref|AsRef<.*>|Borrow<.*>)>::(deref|as_ref|borrow)$|^<(std::path::)?Path as AsRef<.*>>::as_ref$|^<&(std::path::)?Path as Into<(std::path::)?PathBuf>>::into$|^<(std::path::)?PathBuf as From<.*>>::from$|^<(std::path::)?PathBuf as Clone>::clone$')
+@pattern(r'^std::path::Path::(to_path_buf|new|as_os_str|to_str|to_string_lossy|display|join|file_name|parent|extension|file_stem|exists|is_dir|is_file)(::<.*>)?$|^<(std::path::)?PathBuf as (Deref|AsRef<.*>|Borrow<.*>)>::(deref|as_ref|borrow)$|^<(std::path::)?Path as AsRef<.*>>::as_ref$|^<&(std::path::)?Path as Into<(std::path::)?PathBuf>>::into$|^<(std::path::)?PathBuf as From<.*>>::from$|^<(std::path::)?PathBuf as Clone>::clone$')
 def m_path(ex, f, a):
     if f.endswith(('::exists', '::is_dir', '::is_file')): raise Unsupported('filesystem query ' + f)
     if f.endswith(('::display', '::to_string_lossy')): return Str([0xFFFD])
-    if f.endswith('::join'):
+    if mt.strip_generics(f).endswith('::join'):
         base = ex.deref(a[0]); return Opaque('path', parts=getattr(base, 'parts', ()) + (ex.deref(a[1]),))
     v = a[0]; return v if not isinstance(v, Ref) or isinstance(v.get(), (Opaque,)) and False else (ex.deref(v) if isinstance(ex.deref(v), Opaque) else v)
 @pattern(r'^<std::path::Display as ToString>::to_string$')
